@@ -184,3 +184,361 @@ Example bucket_sat :
   snd (run 0 (repeat (0, 0) 8)) = repeat 0 8 /\
   nth 8 (snd (run 0 (repeat (0, 0) 9))) 1 = second.
 Proof. vm_compute. auto. Qed.
+
+(* ---- one sender, every event stamped before the next Send (run_sync) ---------------- *)
+
+Definition step_ok (x : Z * Z * Z) : Prop :=
+  let '(gap, chars, slack) := x in 0 <= gap /\ 0 <= chars /\ 0 <= slack.
+Definition sum_cost3 (l : list (Z * Z * Z)) : Z :=
+  fold_right (fun x a => cost (snd (fst x)) + a) 0 l.
+Definition sum_gap3 (l : list (Z * Z * Z)) : Z :=
+  fold_right (fun x a => fst (fst x) + a) 0 l.
+
+Lemma run_sync_cons : forall s gap chars slack rest,
+  run_sync s ((gap, chars, slack) :: rest) =
+  let now := last s + gap in
+  let r := rate s now chars in
+  let w := now + snd r + slack in
+  (fst (run_sync (mkR (wd (fst r)) w) rest),
+   (now, snd r, w) :: snd (run_sync (mkR (wd (fst r)) w) rest)).
+Proof.
+  intros s gap chars slack rest. cbn [run_sync].
+  destruct (rate s (last s + gap) chars) as [s1 d]. cbn [fst snd].
+  destruct (run_sync (mkR (wd s1) (last s + gap + d + slack)) rest) as [s2 out]. reflexivity.
+Qed.
+
+Lemma run_sync_app : forall a b s,
+  run_sync s (a ++ b) =
+  (fst (run_sync (fst (run_sync s a)) b), snd (run_sync s a) ++ snd (run_sync (fst (run_sync s a)) b)).
+Proof.
+  induction a as [|[[gap chars] slack] a IH]; intros b s.
+  - cbn. now destruct (run_sync s b).
+  - cbn [app]. rewrite !run_sync_cons. cbv zeta. rewrite IH. cbn [fst snd]. reflexivity.
+Qed.
+
+Lemma sum_cost3_app : forall a b, sum_cost3 (a ++ b) = sum_cost3 a + sum_cost3 b.
+Proof.
+  induction a as [|x a IH]; intros b; [reflexivity|].
+  cbn [app]. unfold sum_cost3 in *. cbn [fold_right]. rewrite IH. lia.
+Qed.
+
+Lemma sum_cost3_ge : forall l, Forall step_ok l -> Z.of_nat (length l) * second <= sum_cost3 l.
+Proof.
+  induction l as [|[[gap chars] slack] l IH]; intros H.
+  - cbn. lia.
+  - inversion H as [|? ? Hx Hl]; subst. specialize (IH Hl). destruct Hx as (_ & Hc & _).
+    unfold sum_cost3 in *. cbn [fold_right length fst snd].
+    pose proof (cost_ge_second chars Hc). lia.
+Qed.
+
+(* the budget: charged minus real time elapsed never exceeds the allowance *)
+Lemma sync_budget : forall steps s,
+  0 <= wd s -> Forall step_ok steps ->
+  wd s + sum_cost3 steps - (last (fst (run_sync s steps)) - last s) <= Z.max threshold (wd s).
+Proof.
+  induction steps as [|[[gap chars] slack] rest IH]; intros s Hw HF.
+  - cbn. lia.
+  - inversion HF as [|? ? Hx Hr]; subst. destruct Hx as (Hg & Hc & Hs).
+    rewrite run_sync_cons. cbv zeta. cbn [fst].
+    pose proof (delay_is_cost s (last s + gap) chars) as D.
+    destruct (rate s (last s + gap) chars) as [s1 d]. cbn [fst snd].
+    destruct D as (D1 & D2 & D3 & D4 & D5 & D6).
+    set (s1' := mkR (wd s1) (last s + gap + d + slack)).
+    specialize (IH s1' ltac:(cbn; lia) Hr). cbn [wd last s1'] in IH. fold s1' in IH |- *.
+    unfold sum_cost3 in *. cbn [fold_right fst snd].
+    pose proof (cost_pos chars Hc) as Hcp.
+    destruct (Z_lt_le_dec threshold (wd s1)) as [Hgt|Hle].
+    + specialize (D2 Hgt). lia.
+    + specialize (D3 Hle). lia.
+Qed.
+
+(* stamps never run backwards and every event is stamped no earlier than Send + delay *)
+Lemma sync_last_mono : forall steps s,
+  Forall step_ok steps -> 0 <= wd s -> last s <= last (fst (run_sync s steps)) /\ 0 <= wd (fst (run_sync s steps)).
+Proof.
+  induction steps as [|[[gap chars] slack] rest IH]; intros s HF Hw.
+  - cbn. lia.
+  - inversion HF as [|? ? Hx Hr]; subst. destruct Hx as (Hg & Hc & Hs).
+    rewrite run_sync_cons. cbv zeta. cbn [fst].
+    pose proof (delay_is_cost s (last s + gap) chars) as D.
+    destruct (rate s (last s + gap) chars) as [s1 d]. cbn [fst snd].
+    destruct D as (D1 & D2 & D3 & D4 & D5 & D6).
+    pose proof (cost_pos chars Hc) as Hcp.
+    specialize (IH (mkR (wd s1) (last s + gap + d + slack)) Hr ltac:(cbn; lia)). cbn [last wd] in IH.
+    lia.
+Qed.
+
+(* accumulator from below: everything charged minus the gaps (the only time forgiven) *)
+Lemma sync_lower : forall steps s,
+  0 <= wd s -> Forall step_ok steps ->
+  wd s + sum_cost3 steps - sum_gap3 steps <= wd (fst (run_sync s steps)) /\
+  sum_gap3 steps <= last (fst (run_sync s steps)) - last s.
+Proof.
+  induction steps as [|[[gap chars] slack] rest IH]; intros s Hw HF.
+  - cbn. lia.
+  - inversion HF as [|? ? Hx Hr]; subst. destruct Hx as (Hg & Hc & Hs).
+    rewrite run_sync_cons. cbv zeta. cbn [fst].
+    pose proof (delay_is_cost s (last s + gap) chars) as D.
+    destruct (rate s (last s + gap) chars) as [s1 d]. cbn [fst snd].
+    destruct D as (D1 & D2 & D3 & D4 & D5 & D6).
+    pose proof (cost_pos chars Hc) as Hcp.
+    specialize (IH (mkR (wd s1) (last s + gap + d + slack)) ltac:(cbn; lia) Hr). cbn [last wd] in IH.
+    unfold sum_cost3, sum_gap3 in *. cbn [fold_right fst snd]. lia.
+Qed.
+
+(* C16_wallclock, first half: for one sender whose events are each stamped before the next
+   Send, after ANY number of events the total cost written fits in the 8 s allowance plus
+   the real time elapsed; with cost >= 1 s: at most 8 + t/1s lines by time t. *)
+Lemma wallclock_sync : forall steps s,
+  0 <= wd s <= threshold -> Forall step_ok steps ->
+  let t := last (fst (run_sync s steps)) - last s in
+  wd s + sum_cost3 steps <= threshold + t /\
+  Z.of_nat (length steps) * second <= threshold + t.
+Proof.
+  intros steps s Hw HF t.
+  pose proof (sync_budget steps s ltac:(lia) HF) as B.
+  pose proof (sum_cost3_ge steps HF) as G. subst t. lia.
+Qed.
+
+(* the same for every prefix: the events stamped by any instant are a prefix of the run *)
+Lemma wallclock_sync_prefix : forall a b s,
+  0 <= wd s <= threshold -> Forall step_ok (a ++ b) ->
+  snd (run_sync s a) = firstn (length a) (snd (run_sync s (a ++ b))) /\
+  Z.of_nat (length a) * second <= threshold + (last (fst (run_sync s a)) - last s).
+Proof.
+  intros a b s Hw HF. apply Forall_app in HF. destruct HF as [Ha Hb]. split.
+  - rewrite run_sync_app. cbn [snd].
+    assert (L : length (snd (run_sync s a)) = length a).
+    { clear. revert s. induction a as [|[[g c] k] a IH]; intros s; [reflexivity|].
+      rewrite run_sync_cons. cbv zeta. cbn [snd length]. now rewrite IH. }
+    rewrite <- L. rewrite firstn_app, Nat.sub_diag, firstn_all. cbn [firstn]. now rewrite app_nil_r.
+  - apply (wallclock_sync a s Hw Ha).
+Qed.
+
+(* C16_wallclock, second half (the hold clause under the same hypothesis): an event sent
+   when everything charged exceeds the allowance plus ALL the real time elapsed since the
+   start is held for exactly its cost, and stamped no earlier than that after its Send. *)
+Lemma hold_sync : forall a s gap chars slack,
+  0 <= wd s -> Forall step_ok (a ++ [(gap, chars, slack)]) ->
+  let s1 := fst (run_sync s a) in
+  let now := last s1 + gap in
+  threshold + (now - last s) < wd s + sum_cost3 (a ++ [(gap, chars, slack)]) ->
+  snd (run_sync s (a ++ [(gap, chars, slack)])) =
+  snd (run_sync s a) ++ [(now, cost chars, now + cost chars + slack)].
+Proof.
+  intros a s gap chars slack Hw HF s1 now Hx.
+  apply Forall_app in HF. destruct HF as [Ha Hx1]. inversion Hx1 as [|? ? Hok _]; subst. cbn in Hok. destruct Hok as (Hg & Hc & Hs).
+  rewrite run_sync_app. cbn [snd]. f_equal. fold s1.
+  rewrite run_sync_cons. cbv zeta. cbn [snd run_sync]. fold now.
+  pose proof (sync_lower a s Hw Ha) as [L1 L2]. fold s1 in L1, L2.
+  pose proof (delay_is_cost s1 now chars) as D.
+  destruct (rate s1 now chars) as [s2 d]. cbn [fst snd].
+  destruct D as (D1 & D2 & D3 & D4 & D5 & D6).
+  rewrite sum_cost3_app in Hx. unfold sum_cost3 at 2 in Hx. cbn [fold_right fst snd] in Hx.
+  assert (Hd : d = cost chars) by (apply D2; subst now; lia).
+  now rewrite Hd.
+Qed.
+
+(* satisfiable: a burst of twelve 30-byte events from a fresh, idle connection: seven pass,
+   the rest are held 1.3 s each *)
+Example sync_sat :
+  map (fun x => snd (fst x)) (snd (run_sync (mkR 0 0) ((cost 30, 30, 0) :: repeat (0, 30, 0) 11))) =
+  repeat 0 7 ++ repeat (cost 30) 5.
+Proof. vm_compute. reflexivity. Qed.
+
+(* ---- the machine: bypass, order, stale lastWrite ------------------------------------- *)
+
+Lemma exec_cons : forall s a rest,
+  exec s (a :: rest) =
+  (fst (exec (fst (step s a)) rest),
+   match snd (step s a) with Some d => d :: snd (exec (fst (step s a)) rest) | None => snd (exec (fst (step s a)) rest) end).
+Proof.
+  intros s a rest. cbn [exec]. destruct (step s a) as [s1 o]. cbn [fst snd].
+  destruct (exec s1 rest) as [s2 ds]. reflexivity.
+Qed.
+
+Lemma exec_app : forall a b s,
+  exec s (a ++ b) = (fst (exec (fst (exec s a)) b), snd (exec s a) ++ snd (exec (fst (exec s a)) b)).
+Proof.
+  induction a as [|x a IH]; intros b s.
+  - cbn. now destruct (exec s b).
+  - cbn [app]. rewrite !exec_cons. rewrite IH. cbn [fst snd].
+    destruct (snd (step s x)); reflexivity.
+Qed.
+
+Definition is_rate (a : action) : bool := match a with ARate _ _ => true | _ => false end.
+
+(* C16_bypass, general form: a schedule fragment without a rate call returns no delay to
+   anybody and leaves the accumulated delay alone *)
+Lemma no_rate_no_delay : forall acts s,
+  forallb (fun a => negb (is_rate a)) acts = true ->
+  snd (exec s acts) = [] /\ wd (rs (fst (exec s acts))) = wd (rs s).
+Proof.
+  induction acts as [|a acts IH]; intros s H.
+  - cbn. auto.
+  - cbn [forallb] in H. apply andb_true_iff in H. destruct H as [Ha Hr].
+    rewrite exec_cons. cbn [fst snd].
+    destruct a as [now e|e|now]; cbn in Ha; try discriminate.
+    + cbn [step fst snd]. specialize (IH (mkS (rs s) (tx s ++ [e]) (wire s)) Hr). cbn [rs] in IH. exact IH.
+    + cbn [step]. destruct (tx s) as [|e q].
+      * cbn [fst snd]. apply IH. exact Hr.
+      * cbn [fst snd]. specialize (IH (mkS (mkR (wd (rs s)) now) q ((now, e) :: wire s)) Hr).
+        cbn [rs wd] in IH. exact IH.
+Qed.
+
+(* AllowFlood, Cmd.Ping, Cmd.Pong: the entry points contribute no rate call *)
+Lemma bypass_entry_points : forall now e,
+  forallb (fun a => negb (is_rate a)) (send_piece true now e) = true /\
+  forallb (fun a => negb (is_rate a)) (ping_actions e) = true /\
+  forallb (fun a => negb (is_rate a)) (pong_actions e) = true /\
+  send_piece true now e = [AEnq e] /\ ping_actions e = [AEnq e] /\ pong_actions e = [AEnq e] /\
+  existsb is_rate (send_piece false now e) = true.
+Proof. intros now e. cbn. repeat split. Qed.
+
+Fixpoint pieces_events (g id : N) (pieces : list Z) : list event :=
+  match pieces with [] => [] | l :: r => mkE g id l :: pieces_events g (N.succ id) r end.
+
+Lemma wire_events_cons : forall r q now e w,
+  wire_events (mkS r q ((now, e) :: w)) = wire_events (mkS r q w) ++ [e].
+Proof. intros. unfold wire_events. cbn [wire map snd rev]. reflexivity. Qed.
+
+(* with AllowFlood a whole Send returns at the instant it was entered, whatever the
+   accumulated delay and however many pieces; all pieces are on the wire in order *)
+Lemma send_flood_allow : forall pieces s t g id,
+  tx s = [] ->
+  snd (send_flood true s t g id pieces) = t /\
+  wd (rs (fst (send_flood true s t g id pieces))) = wd (rs s) /\
+  tx (fst (send_flood true s t g id pieces)) = [] /\
+  wire_events (fst (send_flood true s t g id pieces)) = wire_events s ++ pieces_events g id pieces.
+Proof.
+  induction pieces as [|len rest IH]; intros s t g id Htx.
+  - cbn. rewrite app_nil_r. auto.
+  - cbn [send_flood step]. rewrite Htx. cbn [app tx rs wire wd]. rewrite Z.add_0_r.
+    specialize (IH (mkS (mkR (wd (rs s)) t) [] ((t, mkE g id len) :: wire s)) t g (N.succ id) eq_refl).
+    destruct IH as (I2 & I3 & I4 & I5). cbn [rs wd] in I3.
+    repeat split; auto.
+    rewrite I5. rewrite wire_events_cons. cbn [pieces_events]. rewrite <- app_assoc. cbn [app].
+    unfold wire_events. cbn [wire]. reflexivity.
+Qed.
+
+(* the same Send with flood protection on, from an exhausted allowance: held *)
+Example send_flood_on_sat :
+  snd (send_flood false (sys0 (mkR (9 * second) 0)) 0 0 0 [30; 30]) = 2 * cost 30 /\
+  snd (send_flood true (sys0 (mkR (9 * second) 0)) 0 0 0 [30; 30]) = 0.
+Proof. vm_compute. auto. Qed.
+
+(* C16_order: the queue is FIFO.  Whatever the schedule, the events written followed by the
+   events still queued are the events enqueued, in the order of their enqueue actions. *)
+Definition enq_of (acts : list action) : list event :=
+  flat_map (fun a => match a with AEnq e => [e] | _ => [] end) acts.
+
+Lemma fifo : forall acts s,
+  wire_events (fst (exec s acts)) ++ tx (fst (exec s acts)) = wire_events s ++ tx s ++ enq_of acts.
+Proof.
+  induction acts as [|a acts IH]; intros s.
+  - cbn. now rewrite app_nil_r.
+  - rewrite exec_cons. cbn [fst]. rewrite IH. clear IH.
+    destruct a as [now e|e|now]; cbn [step enq_of flat_map].
+    + destruct (rate (rs s) now (ev_len e)) as [r d]. cbn [fst tx]. unfold wire_events. cbn [wire app]. reflexivity.
+    + cbn [fst tx]. unfold wire_events. cbn [wire]. now rewrite <- !app_assoc.
+    + destruct (tx s) as [|e q] eqn:E.
+      * cbn [fst app]. rewrite E. reflexivity.
+      * cbn [fst tx app]. rewrite wire_events_cons. unfold wire_events. cbn [wire]. now rewrite <- !app_assoc.
+Qed.
+
+Lemma events_of_app : forall g a b, events_of g (a ++ b) = events_of g a ++ events_of g b.
+Proof. intros. unfold events_of. apply filter_app. Qed.
+
+(* per sender: its events on the wire, then its events still queued, are its enqueues in
+   order; once the queue has drained its wire order is its call order *)
+Lemma order_per_sender : forall g acts s,
+  events_of g (wire_events (fst (exec s acts))) ++ events_of g (tx (fst (exec s acts))) =
+  events_of g (wire_events s) ++ events_of g (tx s) ++ events_of g (enq_of acts).
+Proof.
+  intros g acts s. rewrite <- !events_of_app. now rewrite fifo.
+Qed.
+
+Lemma order_drained : forall g acts r,
+  tx (fst (exec (sys0 r) acts)) = [] ->
+  events_of g (wire_events (fst (exec (sys0 r) acts))) = events_of g (enq_of acts).
+Proof.
+  intros g acts r H. pose proof (order_per_sender g acts (sys0 r)) as O.
+  rewrite H in O. cbn in O. now rewrite app_nil_r in O.
+Qed.
+
+Example order_sat :
+  let a := mkE 0 0 30 in let b := mkE 1 0 40 in let c := mkE 0 1 50 in
+  let acts := [ARate 0 a; ARate 0 b; AEnq b; AEnq a; ADeliver 1; ARate 1 c; ADeliver 2; AEnq c; ADeliver 3] in
+  tx (fst (exec (sys0 (mkR 0 0)) acts)) = [] /\
+  events_of 0 (wire_events (fst (exec (sys0 (mkR 0 0)) acts))) = [a; c].
+Proof. vm_compute. auto. Qed.
+
+(* ---- the hold clause is false when lastWrite is stale ------------------------------- *)
+(* sendLoop stamps lastWrite asynchronously.  A sender that issues its Sends back to back
+   reaches the next rate call before sendLoop has run (conn.go: c.tx is buffered, 25), so
+   each call forgives the SAME idle period again.  After an idle period of at least one
+   event's cost, any number of such events pass unheld at one instant. *)
+Definition stale_burst (idle len : Z) (ids : list N) : list action :=
+  concat (map (fun i => send_piece false idle (mkE 0 i len)) ids).
+
+Lemma rate_forgiven : forall idle len, cost len <= idle -> rate (mkR 0 0) idle len = (mkR 0 0, 0).
+Proof.
+  intros idle len Hc. pose proof (delay_is_cost (mkR 0 0) idle len) as D.
+  destruct (rate (mkR 0 0) idle len) as [[w l] d]. cbn [wd last] in D.
+  destruct D as (D1 & D2 & D3 & D4 & D5 & D6).
+  assert (Hw : w = 0) by lia. subst l. rewrite D3 by (unfold threshold, second; lia). rewrite Hw. reflexivity.
+Qed.
+
+Lemma stale_one : forall idle len i s,
+  cost len <= idle -> rs s = mkR 0 0 ->
+  exec s (send_piece false idle (mkE 0 i len)) = (mkS (mkR 0 0) (tx s ++ [mkE 0 i len]) (wire s), [0]).
+Proof.
+  intros idle len i s Hc Hr. unfold send_piece. cbn [exec step ev_len]. rewrite Hr.
+  rewrite rate_forgiven by exact Hc. cbn [rs tx wire]. reflexivity.
+Qed.
+
+Lemma stale_burst_unheld : forall idle len ids s,
+  cost len <= idle -> rs s = mkR 0 0 ->
+  snd (exec s (stale_burst idle len ids)) = repeat 0 (length ids) /\
+  rs (fst (exec s (stale_burst idle len ids))) = mkR 0 0 /\
+  tx (fst (exec s (stale_burst idle len ids))) = tx s ++ map (fun i => mkE 0 i len) ids /\
+  wire (fst (exec s (stale_burst idle len ids))) = wire s.
+Proof.
+  intros idle len ids. induction ids as [|i ids IH]; intros s Hc Hr.
+  - cbn. rewrite app_nil_r. auto.
+  - unfold stale_burst in *. cbn [map concat]. rewrite exec_app.
+    rewrite (stale_one idle len i s Hc Hr). cbn [fst snd].
+    specialize (IH (mkS (mkR 0 0) (tx s ++ [mkE 0 i len]) (wire s)) Hc eq_refl).
+    destruct IH as (I1 & I2 & I3 & I4). cbn [tx wire] in I3, I4.
+    repeat split; auto.
+    + cbn [length repeat app]. now rewrite I1.
+    + rewrite I3. rewrite <- app_assoc. reflexivity.
+Qed.
+
+(* The full-strength hold clause, stated on the machine: in every schedule, a rate call
+   made when the cost charged so far exceeds the allowance plus all real time elapsed
+   since the last write returns the event's cost.  It is FALSE of the faithful model:
+   ten 30-byte events (13 s of cost) sent at one instant 1.3 s after the last write are all
+   returned delay 0 and queued (allowance plus elapsed time: 9.3 s). *)
+Definition hold_clause : Prop :=
+  forall (acts : list action) (now : Z) (e : event) (r0 : rstate),
+    0 <= wd r0 -> 0 <= ev_len e ->
+    Forall (fun a => match a with ARate t x => last r0 <= t <= now /\ 0 <= ev_len x | ADeliver t => last r0 <= t <= now | AEnq _ => True end) acts ->
+    threshold + (now - last r0) <
+      wd r0 + fold_right (fun a acc => match a with ARate _ x => cost (ev_len x) + acc | _ => acc end) 0 (acts ++ [ARate now e]) ->
+    snd (step (fst (exec (sys0 r0) acts)) (ARate now e)) = Some (cost (ev_len e)).
+
+Lemma hold_clause_refuted : ~ hold_clause.
+Proof.
+  intros H.
+  specialize (H (stale_burst (cost 30) 30 (map N.of_nat (seq 0 9))) (cost 30) (mkE 0 9 30) (mkR 0 0)).
+  assert (X : snd (step (fst (exec (sys0 (mkR 0 0)) (stale_burst (cost 30) 30 (map N.of_nat (seq 0 9))))) (ARate (cost 30) (mkE 0 9 30))) = Some 0)
+    by (vm_compute; reflexivity).
+  rewrite H in X.
+  - vm_compute in X. discriminate X.
+  - cbn. lia.
+  - cbn. lia.
+  - apply Forall_forall. intros a Ha. vm_compute in Ha.
+    repeat (destruct Ha as [Ha|Ha]; [subst a; vm_compute; try (repeat split; intro; discriminate); exact I|]). destruct Ha.
+  - vm_compute. reflexivity.
+Qed.
